@@ -19,7 +19,7 @@ class RuleSet(object):
         self.n = 0
         for rule in rules:
             self.n += 1
-            rule = rule.strip().lower().rstrip(".")
+            # rules are taken literally, as the list gives them
             if rule.startswith("!"):
                 self.exc.add(tuple(rule[1:].split(".")))
             elif rule.startswith("*."):
